@@ -1,4 +1,9 @@
 import PeptVerif.Props.C09
+#print axioms Pept.parseChains_never_hangs
+#print axioms Pept.parseChains_vf
+#print axioms Pept.parse_total
 #print axioms Pept.parse_total_false_before_fix_index
 #print axioms Pept.parse_total_false_before_fix_index2
 #print axioms Pept.parse_total_false_before_fix_type
+#print axioms Pept.serializeMulti_ok
+#print axioms Pept.serialize_total
